@@ -14,6 +14,7 @@ def _run(ctx):
     # (b) real 2-3 node clusters, harness-scheduled
     nscen, accepted, cstats, tv_rows, nbad = A.run_cluster_layer(ctx, "C06")
     windows = A.run_windows(ctx)
+    live = A.run_live(ctx) if ctx.tier == "thorough" else []
     if any(n.startswith("design: ") and "masked config" in n for n in ctx.notes) and not ctx.violations:
         raise vlib.Inconclusive("; ".join(ctx.notes[:3]))
     # vacuity guards
@@ -35,6 +36,7 @@ def _run(ctx):
         "cluster_scenarios": nscen, "cluster_traces_accepted_by_AspenKVTrace": accepted,
         "cluster_stats": cstats, "trace_validation_runs": tv_rows[:8],
         "windows_on_real_code": windows,
+        "live_runs": live,
         "rule": "(a) every delivery order / batching / re-delivery (and interleaved local writes) of TLC-chosen operation pools "
                 "(all pools of <=3 ops over 2 keys x 3 versions x 2 remote leaseholders x set/delete; seeded samples of 4-5 ops) "
                 "handed to a real node's operationServer.handle; accepted/rejected partition, digest+value of every key after "
